@@ -119,11 +119,11 @@ Definition ghost_start (i : nat) (jc : Z) (s : state) : state :=
      w_processed := w_processed s; w_claims := w_claims s; g_starts := (i, jc) :: g_starts s |}.
 
 (* store_stage of an object whose only changes are the given ones; version + 1 *)
-Definition st_set (st : stage) (status : status) (started ended : bool) (fired : bool) (branches : list nat)
+Definition st_set (st : stage) (x : status) (started ended : bool) (fired : bool) (branches : list nat)
            (has_exc : bool) (tasks : list status) : stage :=
   {| s_reqs := s_reqs st; s_join := s_join st; s_threshold := s_threshold st; s_cof := s_cof st; s_fp := s_fp st;
      s_enabled := s_enabled st; s_mutex := s_mutex st; s_choice := s_choice st;
-     s_status := status; s_started := started; s_ended := ended; s_version := s_version st + 1;
+     s_status := x; s_started := started; s_ended := ended; s_version := s_version st + 1;
      s_fired := fired; s_branches := branches; s_bypass := s_bypass st; s_jump_count := s_jump_count st;
      s_buffered := s_buffered st; s_has_exc := has_exc; s_plan_pending := s_plan_pending st; s_tasks := tasks |}.
 
